@@ -348,7 +348,14 @@ def layout(t, rng: random.Random, handwritten=0.2, multiline=None, comments=True
         return f"defaultdict({fac},{_ws(rng)}{sub(d)})"
     if k == "call":
         name, fields = p
-        items = [f"{f}{rng.choice(['=', ' = '])}{sub(v)}" for f, v in fields]
+        allf = CALL_FIELDS[name][0]
+        npos = 0
+        if rng.random() < 0.3:
+            # positional prefix: only while the fields present are the leading ones, in order
+            while name != "PM" and npos < len(fields) and fields[npos][0] == allf[npos]:
+                npos += 1
+            npos = rng.randint(0, npos)
+        items = [sub(v) for f, v in fields[:npos]] + [f"{f}{rng.choice(['=', ' = '])}{sub(v)}" for f, v in fields[npos:]]
         return join(name + _ws(rng).replace("\t", "") + "(", items, ")")
     raise AssertionError(t)
 
@@ -447,7 +454,7 @@ def mutate(t, rng: random.Random, hashable=False, depth=2):
                 present[f] = fresh(hashable or name == "FDC")
                 return ("call", (name, tuple((g, present[g]) for g in allf if g in present))), "field_from_default"
         if op == "change_class":
-            other = rng.choice([n for n, (fs, _) in CALL_FIELDS.items() if fs == allf and n != name] or [name])
+            other = rng.choice([n for n, (fs, df) in CALL_FIELDS.items() if fs == allf and set(df) == set(defaults) and n != name] or [name])
             if other != name:
                 return ("call", (other, fields)), "change_class"
         f = rng.choice(list(present)) if present else None
